@@ -298,4 +298,22 @@ PROPS = {
         "partial": ["the random bit generators (RareErrorIterator, biased_randomize_bits beyond the 7-bit ladder) are compared statistically only", "batch sizes are those of the two samplers' public entry points; target positions 1..3"],
         "assumptions": ["std::mt19937_64 seeded from the case PRNG behaves as an ideal source"],
     },
+    "C07": {
+        "lean_modules": ["StimModel.Props.C07"],
+        "builds": ["asan"],
+        "areas": [
+            {"area": "text", "n": {"quick": 800, "thorough": 16000}, "replayable": True, "builds": ["asan"]},
+        ],
+        "rule": "(a) circuits built through the API: every gate with generated valid targets (qubits up to 2^24-1, inverted, Pauli, products with combiners, rec, sweep, MPAD bits) and arguments "
+                "(probabilities, integers, coordinates incl. 1e300, 5e-324, 999999.5, 9.999995, 0.30000000000000004, 2^53+1), tags from arbitrary bytes incl. ] \\ LF CR # { and bytes >= 128, nested "
+                "blocks to depth 3, repeat counts up to 2^63-1, unfused neighbours: the Lean printer must produce the same bytes as Circuit::str(), the Lean parser must read them back to the input "
+                "(arguments through print/read, then fused), the implementation's parse of its own print must equal the Lean parse, and after one normalising round trip print and parse are exact inverses; "
+                "(b) printed texts edited with documented liberties (aliases, letter case, blanks/tabs, comments, CRLF, blank lines, missing final newline) must parse to the same circuit; (c) 16 kinds of "
+                "documented violations appended; (d) truncated texts and random bytes: in (b)-(d) accept/reject and the parsed structure must equal the Lean parser's; Circuit(text), Circuit::from_file "
+                "and append_from_file(stop_asap) must agree; sanitizers on; distinct = distinct texts",
+        "trusted_base": [],
+        "partial": ["strtod is modelled as exact decimal value + 'within one unit in the last place' (not bit-exact correct rounding); literals beyond the largest double by less than half an ulp are not generated",
+                    "memory proportional to the input is not measured; memory errors are looked for with ASan/UBSan on the generated inputs"],
+        "assumptions": [],
+    },
 }
